@@ -20,6 +20,7 @@ from pymarkdown.plugin_manager.rule_plugin import RulePlugin
 LINE_MARK = "VP-FIXME"
 LINE_FIXED = "VP-FIXED"
 TOKEN_MARK = "vp-token-fixme"
+CHAIN = {"aaa000": ("VP-FIXME", "VP-STEP1"), "md016": ("VP-STEP1", "VP-STEP2"), "zzz999": ("VP-STEP2", "VP-FIXED")}
 
 
 class ProbeBase(RulePlugin):
@@ -69,6 +70,16 @@ class ProbeBase(RulePlugin):
 
     def next_line(self, context, line):
         self._note("next_line")
+        if self._cfg().get("chain"):
+            # chained mode: three probes at one fix level whose fixes do not commute
+            # (aaa000: FIXME -> STEP1, md016: STEP1 -> STEP2, zzz999: STEP2 -> FIXED)
+            source, target = CHAIN[self.PID]
+            if line == source:
+                if context.in_fix_mode:
+                    context.set_current_fix_line(target)
+                else:
+                    self.report_next_line_error(context, 1)
+            return
         if line == LINE_MARK:
             if context.in_fix_mode:
                 context.set_current_fix_line(LINE_FIXED)
